@@ -42,6 +42,14 @@ func c02Bases(seed int64, thorough bool) []*e2eCase {
 	mk(false, true, 3, false, 2, []int64{7000})
 	res[len(res)-1].Opts.Overwrite = true
 	res[len(res)-1].Pre = []e2eNode{{Rel: e2eName(0, 0), Size: 7000, Like: 1, DivergeAt: 6000}}
+	// a resume over several hash steps (10 MiB each): the first step matches, the second differs
+	mk(true, true, 4, false, 2, []int64{25 << 20})
+	res[len(res)-1].Opts.Overwrite = true
+	res[len(res)-1].Opts.Bufsize = 10 << 20
+	res[len(res)-1].Opts.Timeout = 5
+	res[len(res)-1].WatchdogMs = 60000
+	res[len(res)-1].Nodes[0].Kind = 1
+	res[len(res)-1].Pre = []e2eNode{{Rel: e2eName(0, 0), Size: 25 << 20, Like: 1, DivergeAt: 12 << 20}}
 	if thorough {
 		mk(true, false, 1, false, 0, []int64{3000, 100})
 		mk(false, false, 2, false, 0, []int64{6000})
@@ -81,6 +89,26 @@ func c02Faults(d *vCtx) error {
 		for bi, c := range bases {
 			_ = c
 			w := layouts[bi]
+			bigResume := len(c.Nodes) == 1 && c.Nodes[0].Size >= 20<<20
+			// whole protocol lines dropped / delivered twice, in the phases before the file data (names,
+			// sizes, the resume hash exchange) of transfers that overwrite an existing file
+			if c.Opts.Overwrite || thorough {
+				seenData := 0
+				for _, m := range w {
+					if m.Typ == "DATA" {
+						seenData++
+					}
+					if m.G == 0 || (seenData > 0 && m.Typ == "DATA") || (bigResume && seenData > 2) {
+						continue
+					}
+					for _, k := range []string{"linedel", "linedup"} {
+						jobs = append(jobs, c02Job{bi, []e2eFault{{Dir: m.Dir, Off: m.Off, Kind: k}}, "line"})
+					}
+				}
+			}
+			if bigResume {
+				continue // 25 MiB per run: no per-byte matrix here
+			}
 			for _, m := range w {
 				var offs []int
 				switch {
